@@ -214,12 +214,12 @@ Section Main.
 
   (* one array element followed by a separator *)
   Lemma element_run P d d1 v h f w w2 r lvl s :
-    q_any P d1 v h -> SVal d1 v -> (d1 <= d)%nat -> WS w -> WS w2 -> sep r -> r <> [] -> (lvl + d <= maxrec)%nat ->
+    q_any P d1 v h -> SVal d1 v -> (d1 <= d)%nat -> WS w -> WS w2 -> sep r -> (lvl + d <= maxrec)%nat ->
     (2 * length (w ++ v ++ w2 ++ r) + 1 <= f)%nat -> path s = P ->
     exists s2, arr_body (go f) (w ++ v ++ w2 ++ r) lvl s = arr_sep (go f) lvl (Some r, s2) /\
                qsat s2 = qsat s || h /\ path s2 = P.
   Proof.
-    intros IHv Hv Hle Hw Hw2 Hr Hne Hl Hf Hp. unfold arr_body, consume_space.
+    intros IHv Hv Hle Hw Hw2 Hr Hl Hf Hp. unfold arr_body, consume_space.
     destruct (SVal_head _ _ Hv) as (c & vt & Ev & Hh).
     rewrite (skip_space_ws_app w (v ++ w2 ++ r) Hw) by (rewrite Ev; cbn; apply Hh).
     assert (Einp : v ++ w2 ++ r = c :: (vt ++ w2 ++ r)) by (rewrite Ev; reflexivity).
@@ -233,13 +233,13 @@ Section Main.
 
   (* one object member followed by a separator *)
   Lemma member_run P d d1 key v h f w w1 w2 w3 r lvl s :
-    q_any (key :: P) d1 v h -> SVal d1 v -> (d1 <= d)%nat -> WS w -> RStr (key ++ [34]) -> WS w1 -> WS w2 -> WS w3 -> sep r -> r <> [] ->
+    q_any (key :: P) d1 v h -> SVal d1 v -> (d1 <= d)%nat -> WS w -> RStr (key ++ [34]) -> WS w1 -> WS w2 -> WS w3 -> sep r ->
     (lvl + d <= maxrec)%nat ->
     (2 * length (w ++ 34%N :: (key ++ [34%N]) ++ w1 ++ 58%N :: w2 ++ v ++ w3 ++ r) + 1 <= f)%nat -> path s = P ->
     exists s6, obj_body qs (go f) (w ++ 34 :: (key ++ [34]) ++ w1 ++ 58 :: w2 ++ v ++ w3 ++ r) lvl s = obj_sep (go f) lvl (Some r, s6) /\
                qsat s6 = qsat s || (direct qs (key :: P) v || h) /\ path s6 = key :: P.
   Proof.
-    intros IHv Hv Hle Hw Hk Hw1 Hw2 Hw3 Hr Hne Hl Hf Hp. unfold obj_body, consume_space.
+    intros IHv Hv Hle Hw Hk Hw1 Hw2 Hw3 Hr Hl Hf Hp. unfold obj_body, consume_space.
     rewrite (skip_space_ws_app w (34 :: (key ++ [34]) ++ w1 ++ 58 :: w2 ++ v ++ w3 ++ r) Hw) by reflexivity.
     cbn [N.eqb Pos.eqb negb].
     match goal with |- context [consume_string ((key ++ [34]) ++ ?rr) 0 false ?st] =>
@@ -314,13 +314,13 @@ Section Main.
     - (* last element *)
       intros P d d1 w v w2 h Hw Hq IHv Hle Hw2 fuel rest lvl s Hl Hf Hp. destruct fuel as [|f]; [lia|]. cbn [Json.go]. napp.
       destruct (element_run P d d1 v h f w w2 (93 :: rest) lvl s IHv (proj1 (Q_erase qs) _ _ _ _ Hq) Hle Hw Hw2) as (s2 & -> & Hq2 & Hp2);
-        [right; left; reflexivity|discriminate|exact Hl| |exact Hp|].
+        [right; left; reflexivity|exact Hl| |exact Hp|].
       { len_norm Hf. len_goal. lia. }
       unfold arr_sep. cbn [N.eqb Pos.eqb]. eexists. split; [reflexivity|]. cbn. rewrite Hp2. split; [exact Hq2|reflexivity].
     - (* element, comma, tail *)
       intros P d d1 w v w2 t h1 h2 Hw Hq IHv Hle Hw2 _ IHt fuel rest lvl s Hl Hf Hp. destruct fuel as [|f]; [lia|]. cbn [Json.go]. napp.
       destruct (element_run P d d1 v h1 f w w2 (44 :: t ++ rest) lvl s IHv (proj1 (Q_erase qs) _ _ _ _ Hq) Hle Hw Hw2) as (s2 & -> & Hq2 & Hp2);
-        [left; reflexivity|discriminate|exact Hl| |exact Hp|].
+        [left; reflexivity|exact Hl| |exact Hp|].
       { len_norm Hf. len_goal. lia. }
       unfold arr_sep. cbn [N.eqb Pos.eqb].
       destruct (IHt f rest lvl (bump 1 s2)) as (s3 & E & Hq3 & Hp3); [exact Hl|len_norm Hf; len_goal; lia|exact Hp2|].
@@ -333,7 +333,7 @@ Section Main.
       intros P d d1 w key w1 w2 v w3 h Hw Hk Hw1 Hw2 Hq IHv Hle Hw3 fuel rest lvl s Hl Hf Hp.
       destruct fuel as [|f]; [lia|]. cbn [Json.go]. napp.
       destruct (member_run P d d1 key v h f w w1 w2 w3 (125 :: rest) lvl s IHv (proj1 (Q_erase qs) _ _ _ _ Hq) Hle Hw Hk Hw1 Hw2 Hw3) as (s6 & E & Hq6 & Hp6);
-        [right; right; reflexivity|discriminate|exact Hl| |exact Hp|].
+        [right; right; reflexivity|exact Hl| |exact Hp|].
       { len_norm Hf. len_goal. lia. }
       napp. napp_in E. rewrite E.
       unfold obj_sep. cbn [N.eqb Pos.eqb]. eexists. split; [reflexivity|]. cbn. rewrite Hp6. split; [exact Hq6|reflexivity].
@@ -341,7 +341,7 @@ Section Main.
       intros P d d1 w key w1 w2 v w3 t h h2 Hw Hk Hw1 Hw2 Hq IHv Hle Hw3 _ IHt fuel rest lvl s Hl Hf Hp.
       destruct fuel as [|f]; [lia|]. cbn [Json.go]. napp.
       destruct (member_run P d d1 key v h f w w1 w2 w3 (44 :: t ++ rest) lvl s IHv (proj1 (Q_erase qs) _ _ _ _ Hq) Hle Hw Hk Hw1 Hw2 Hw3) as (s6 & E & Hq6 & Hp6);
-        [left; reflexivity|discriminate|exact Hl| |exact Hp|].
+        [left; reflexivity|exact Hl| |exact Hp|].
       { len_norm Hf. len_goal. lia. }
       napp. napp_in E. rewrite E.
       unfold obj_sep. cbn [N.eqb Pos.eqb].
